@@ -41,6 +41,14 @@ for p in props:
         "level_note": getattr(c, "LEVEL_NOTE", "") or "; ".join(c.ASSUMPTIONS) or "see evidence assumptions",
         "technique": getattr(c, "TECHNIQUE", "TLA+ model checked with TLC; model behaviours replayed on the real code; observed traces validated by TLC against the TLA+ monitor"),
     })
+# coverage extensions: specs of behaviour outside the 54 given properties (DESIGN 10.5); same pipeline, own evidence dir
+extras = []
+for x in sorted((V / "props").glob("X*.py")):
+    import re as _re
+    txt = x.read_text()
+    m = _re.search(r'SPEC_DIR\s*=\s*"([^"]+)"', txt)
+    extras.append({"name": f"{x.stem} {m.group(1) if m else ''}".strip(), "path": f"/verif/props/{x.name}", "serves_properties": [],
+                   "kind_free_text": f"coverage extension (no given property): ./check {x.stem} --tier quick|thorough; same TLC model + replay + trace validation pipeline; evidence in evidence_extra/{x.stem}.json"})
 man = {
     "version": 1,
     "setup_cmd": "python3 tools/gen_trace_specs.py",
@@ -51,7 +59,7 @@ man = {
         "source_commits": [],
         "add_only": True,
     },
-    "engines": [{"name": "tlc+replay", "path": "/verif/check", "serves_properties": [c["property_id"] for c in checks],
+    "engines": extras + [{"name": "tlc+replay", "path": "/verif/check", "serves_properties": [c["property_id"] for c in checks],
                  "kind_free_text": "TLC 1.8 exhaustive model checking + -simulate; model behaviours replayed in-process on mitmproxy's real classes; trace validation by TLC against Mon_X.tla"}],
     "checks": checks,
     "not_applicable": na,
